@@ -128,7 +128,11 @@ int vp_cost_choose(int n, int costnz, const char *tag)
 	int i = me->len, c = 0;
 	(void)tag;
 	if (n <= 0) vp_broken("vp_choose(%d) at %d tag %s", n, i, tag);
-	if (i >= VP_MAXLEN) vp_broken("execution longer than VP_MAXLEN choices (tag %s)", tag);
+	if (i >= VP_MAXLEN) {
+		char pre[400]; int k, l = 0;
+		for (k = 0; k < 60 && l < 380; k++) l += snprintf(pre + l, sizeof pre - l, "%d,", me->choice[k]);
+		vp_broken("execution longer than VP_MAXLEN choices (tag %s); it starts with [%s...]", tag, pre);
+	}
 	if (n > 65535) vp_broken("arity too large");
 	if (i < me->plan_len) {
 		c = me->plan[i];
